@@ -407,6 +407,14 @@ func genC03(c *w1Case, r *simrt.Rng) {
 	if r.Chance(0.3) {
 		o.actions = append(o.actions, "panic")
 	}
+	if r.Chance(0.35) {
+		// holders of a pitch across a mapping switch: keys of the main and of a named sub-handler, some of them
+		// without a note (or with another note) in the other mapping
+		o.nMaps = [2]int{2, 3}
+		o.actions = append(o.actions, "mapping_up", "mapping_down")
+		o.unmapProb = 0.3
+		o.handlers = r.Range(1, 3)
+	}
 	c.d = baseDesc(r, o)
 	g := newScriptGen(r, c.d)
 	g.steps(r.Range(8, 50), 8, 2, 3, false)
@@ -426,6 +434,14 @@ func genC03(c *w1Case, r *simrt.Rng) {
 func genC04Hats(c *w1Case, r *simrt.Rng) {
 	o := genOpts{nKeys: [2]int{2, 6}, nMaps: [2]int{1, 3}, notePool: intsRange(0, 127), offsets: true, exitLen: -1, defaults: true,
 		unmapProb: 0.2, remapProb: 0.4, handlers: 1}
+	// mixed: action keys next to the hats (as the shipped gamepad files have: channel on buttons, octave and mapping
+	// on hats). Never generated, because the statement speaks of "both keys of a pair": a key and a hat holding
+	// the two halves of one pair or the same action; a hat deflected while a complete key pair is held (the
+	// third action of canPressAction). A hat may be released at any time.
+	mixed := r.Chance(0.4)
+	if mixed {
+		o.actions = transposeActions
+	}
 	c.d = baseDesc(r, o)
 	pairs := [][2]string{{"octave_up", "octave_down"}, {"semitone_up", "semitone_down"}, {"channel_up", "channel_down"}, {"mapping_up", "mapping_down"}}
 	names := pickN(r, hatAxes, r.Range(1, 3))
@@ -448,9 +464,39 @@ func genC04Hats(c *w1Case, r *simrt.Rng) {
 	g := newScriptGen(r, c.d)
 	n := r.Range(8, 60)
 	pos := map[uint16]int32{}
+	// the action a hat position triggers (flip applied)
+	hatAction := func(a model.AxisDesc, v int32) string {
+		if a.Flip {
+			v = -v
+		}
+		if v > 0 && a.Action != nil {
+			return *a.Action
+		}
+		if v < 0 && a.ActionNeg != nil {
+			return *a.ActionNeg
+		}
+		return ""
+	}
+	hatHeld := func() map[string]bool {
+		h := map[string]bool{}
+		for _, b := range axes {
+			if x := hatAction(b, pos[b.Code]); x != "" {
+				h[x] = true
+			}
+		}
+		return h
+	}
 	for i := 0; i < n; i++ {
-		if r.Chance(0.55) {
+		switch {
+		case r.Chance(0.55):
 			a := axes[r.Intn(len(axes))]
+			v := []int32{-1, 0, 1}[r.Intn(3)]
+			if g.nOct+g.nSemi > 150 {
+				v = 0
+			}
+			if x := hatAction(a, v); mixed && x != "" && (!g.canPressAction(x) || g.actDown[x] || g.actDown[partnerOf(x)]) {
+				v = 0
+			}
 			// one hat at a time: bring the others back to rest first
 			for _, b := range axes {
 				if b.Code != a.Code && pos[b.Code] != 0 {
@@ -458,14 +504,19 @@ func genC04Hats(c *w1Case, r *simrt.Rng) {
 					pos[b.Code] = 0
 				}
 			}
-			v := []int32{-1, 0, 1}[r.Intn(3)]
-			if g.nOct+g.nSemi > 150 {
-				v = 0
-			}
 			g.nOct++
 			g.out = append(g.out, model.Event{Kind: "abs", Code: a.Code, Value: v})
 			pos[a.Code] = v
-		} else {
+		case mixed && r.Chance(0.5):
+			ak := c.d.Actions[r.Intn(len(c.d.Actions))]
+			if g.down[ak.Code] {
+				g.release(ak.Code)
+			} else if hh := hatHeld(); !hh[ak.Action] && !hh[partnerOf(ak.Action)] {
+				if g.pressAction(ak) && r.Chance(0.4) {
+					g.release(ak.Code)
+				}
+			}
+		default:
 			g.steps(1, 1, 0, 1, false)
 		}
 	}
